@@ -34,6 +34,7 @@ ASSUMPTIONS = [
     'float(repr(x)) == x); string values are non-numeric labels',
     'different metadata files define different fields (directory order is unspecified on a real file system)',
     'forms added after seeding rounds: foreign CSV whose columns are named like saved fields, tab-delimited .csv and comma-delimited .tsv foreign tables, hard-linked cluster file, dataset without cluster file',
+    "round 7: operation meta_clear (a saved field saved again with an empty mapping or only None entries); with a colliding legacy CSV present the reload shows that table's value, as the pinned code does (the statement does not decide this corner)",
 ]
 STUBS = ['virtual file system', 'np.random.choice (arbitrary subset)', 'tqdm']
 OUTSIDE = ['byte formats of npy/TSV (replays run the same histories on a real directory)', 'longer histories']
